@@ -49,7 +49,8 @@ def check(out, ctx):
                           common.case_payload(c, st))
     bad = common.correspondence(out, st, cases)
     # history independence: the memoized grammars' cases again, in reverse order, in one process per shard
-    rev = list(reversed(cases))[: (800 if ctx.tier == "quick" else 8000)]
+    hang = common.hanging(st)
+    rev = [c for c in reversed(cases) if c.g.gid not in hang][: (800 if ctx.tier == "quick" else 8000)]
     by_exe = collections.defaultdict(list)
     for k, c in enumerate(rev):
         by_exe[st["exes"][c.g.gid]].append(k)
